@@ -308,6 +308,26 @@ func (x *Exec) stmt(s ast.Stmt, st *State, cs []*ctl) []*State {
 		}
 		return x.live(st)
 	case *ast.AssignStmt:
+		// a function literal stored in a field runs later, at an arbitrary
+		// time: when the unit's contract speaks about it (`lit N ...`), its
+		// body is verified from a state whose heap is unknown (captured
+		// locals keep their values)
+		for i, r := range s.Rhs {
+			lit, ok := unparen(r).(*ast.FuncLit)
+			if !ok || i >= len(s.Lhs) || !x.coarse || x.c == nil {
+				continue
+			}
+			if _, isSel := unparen(s.Lhs[i]).(*ast.SelectorExpr); !isSel {
+				continue
+			}
+			ord := x.litOrd[lit]
+			if len(x.c.LitEnsures[ord])+len(x.c.LitInvariants[ord])+len(x.c.LitRequires[ord])+len(x.c.LitOkInvariants[ord]) == 0 {
+				continue
+			}
+			s2 := st.clone()
+			x.havocHeapAll(s2)
+			x.checkLit(lit, s2, false)
+		}
 		x.assign(s, st)
 		return x.live(st)
 	case *ast.IncDecStmt:
